@@ -10,8 +10,27 @@ from common import ModelError, R, Rmat, flmat, max_rel_err
 
 from common import wiring_pre_build as pre_build  # noqa: E402,F401
 
-LEAN_MODULES = ["PyomaVerif.Props.C03", "PyomaVerif.Props.C01", "PyomaVerif.Props.WiringRun", "PyomaVerif.Props.C03C11"]
+LEAN_MODULES = ["PyomaVerif.Props.C03", "PyomaVerif.Props.C01", "PyomaVerif.Props.WiringRun", "PyomaVerif.Props.C03C11", "PyomaVerif.Props.C03E2E"]
 THEOREMS = [
+    # end to end: per-setup records -> Hankel -> per-setup factor -> re-basing -> Obs_all -> realisation -> extraction
+    # (Props/C03E2E.lean, Lemmas/MsFreeVib.lean)
+    "PV.MsFreeVib.rebase_deficient",
+    "PV.MsFreeVib.setup_parts",
+    "PV.MsFreeVib.ms_obs_all",
+    "PV.MsFreeVib.ms_realised",
+    "PV.C03E2E.C03_e2e_core",
+    "PV.C03E2E.CovSetup.ok",
+    "PV.C03E2E.DatSetup.ok",
+    "PV.C03E2E.C03_e2e_cov",
+    "PV.C03E2E.C03_e2e_dat",
+    "PV.C03E2E.Ex.cov0",
+    "PV.C03E2E.Ex.cov1",
+    "PV.C03E2E.Ex.hqr",
+    "PV.C03E2E.Ex.recovered",
+    "PV.C03E2E.ExD.dat0",
+    "PV.C03E2E.ExD.dat1",
+    "PV.C03E2E.ExD.hqr",
+    "PV.C03E2E.ExD.recovered",
     # C03 o C11: multi-setup identification => extraction (Props/C03C11.lean)
     "PV.C03C11.C03C11_obs_all",
     "PV.C03C11.C03C11_identified",
@@ -110,19 +129,27 @@ def correspondence(ctx):
             Y = [{"mov": y["mov"], "ref": y["ref"]} for y in Y]
             ctx.count("setup_dict_mov_first")
         svds, pinvs, qrs, invs = [], [], [], []
+        Y_in = [{k_: np.array(v_, copy=True) for k_, v_ in y.items()} for y in Y]
         try:
             with record(np.linalg, "svd", svds), record(np.linalg, "pinv", pinvs), record(np.linalg, "qr", qrs), record(np.linalg, "inv", invs):
                 Obs_all, A, C = ssi.SSI_multi_setup(Y, S.fs, br, ordmax, method_hank=method)
         except (ValueError, np.linalg.LinAlgError):
             ctx.skipped += 1
             continue
+        # the split handed in belongs to the caller (MultiSetup_PreGER.data, shared by every algorithm of the setup)
+        ctx.corr("ssi.SSI_multi_setup[inputs kept]", all(np.array_equal(y[k_], yi[k_]) for y, yi in zip(Y, Y_in) for k_ in ("ref", "mov")),
+                 {"br": br, "method": method}, "unchanged", "modified", None)
         nref = len(ref_ind[0])
         nmov = [d.shape[1] - nref for d in datasets]
         rows_src = ctx.model("multi_all_rows", br=br, nref=nref, nmov=nmov)
         O_movs = []
         O1_ref = None
         for i in range(len(datasets)):
-            U, SIG, _ = svds[i][1]
+            U, SIG, _Vt = svds[i][1]
+            Hs = np.asarray(svds[i][0][0])
+            ks = len(SIG)
+            ctx.contract("svd", max(np.abs((U[:, :ks] * SIG) @ _Vt[:ks, :] - Hs).max() / max(np.abs(Hs).max(), 1e-300), np.abs(U.T @ U - np.eye(U.shape[1])).max()),
+                         1e-10, "H = U diag(S) V^T, U^T U = I (per setup)")
             Obs = U[:, :ordmax] * np.sqrt(SIG[:ordmax])[None, :]
             idx = ctx.model("multi_rows", br=br, nref=nref, nmov=nmov[i])
             O_ref, O_mov = Obs[idx["ref_rows"], :], Obs[idx["mov_rows"], :]
@@ -359,6 +386,33 @@ def oracle(ctx, scale):
                 ctx.violation("ms:mpe-inaccurate", f"{cls.__name__}.mpe: extracted mode {j}: f {r2.Fn[j]} vs {S.fn[i]}, xi {r2.Xi[j]} vs {S.xi[i]}, MAC {mc} (global shape)", inp)
                 return
         ctx.count("mpe_square_shape_matrix" if S.phi.shape[0] == S.m else "mpe_rectangular_shape_matrix")
+        if ctx.rng.random() < 0.5:
+            # a second identification on the same setup object (the other method): the first one left the data alone
+            cls2 = SSIdat_MS if cls is SSIcov_MS else SSIcov_MS
+            kw2 = dict(name="b", br=br, ordmax=ordmax, hc=hc)
+            if cls2 is SSIcov_MS:
+                kw2["method"] = "cov_mm"
+            alg2 = cls2(**kw2)
+            ms.add_algorithms(alg2)
+            try:
+                ms.run_by_name("b")
+            except np.linalg.LinAlgError:
+                alg2 = None
+            if alg2 is not None:
+                r2b = alg2.result
+                sv_ok = True
+                for y in gen.pre_multisetup([d.copy() for d in datasets], [list(r) for r in ref_ind]):
+                    Hh, _ = ssi.build_hank(np.vstack((y["ref"], y["mov"])), y["ref"], br, "dat" if cls2 is SSIdat_MS else "cov_mm")
+                    svh = np.linalg.svd(Hh, compute_uv=False)
+                    sv_ok = sv_ok and len(svh) >= m2 and svh[m2 - 1] / svh[0] >= (1e-5 if getattr(S, "weak", None) else 1e-7)
+                if sv_ok:
+                    ctx.oracle_cases += 1
+                    ctx.count("second_algorithm_same_setup")
+                    for (kk, rows, efn, exi, mc) in sysgen.match_poles(r2b.Fn_poles[:, m2], r2b.Xi_poles[:, m2], r2b.Phi_poles[:, m2, :], S, r2b.Lambds[:, m2]):
+                        if len(rows) < 2 or not (efn <= 1e-7 and exi <= 1e-7 and 1 - mc <= 1e-7):
+                            ctx.violation("ms:second-algorithm-same-setup", f"{cls2.__name__} run after {cls.__name__} on the same MultiSetup_PreGER object: mode {kk}: "
+                                          f"rel freq err {efn:.2e}, damping err {exi:.2e}, 1-MAC {1 - mc:.2e}", inp)
+                            return
 
 
 def replay(rec):
